@@ -495,7 +495,7 @@ def main(c):
 def body(c, mfront, mquery, exe, G, th, coqres, POS):
     # ------------------------------------------------ declarations -> .mfront -> mfront -> shared libraries
     decls = archetypes(G) + implicit_archetypes() + probes()
-    n = c.pick(14, 60)
+    n = c.pick(12, 60)
     k = 0
     while len(decls) < n:
         decls.append(gen_decl(c.rng, G, k))
